@@ -1097,11 +1097,17 @@ func clipBorderSegment(context backend.Canvas, style pr.String, width fl, side p
 			context.State().Clip(true)
 			ld := fl(math.Round(float64(length / dash)))
 			denom := ld - utils.FloatModulo(ld+1, 2)
-			dash = length
-			if denom != 0 {
-				dash /= denom
+			if denom < 1 {
+				// the side is too short for a dash and a gap: one dash (x = 0)
+				denom = 1
 			}
-			maxI := int(math.Round(float64(length / dash)))
+			dash = length / denom
+			maxI := int(denom)
+			if !(length > 0) {
+				// nothing to paint: clip everything out (the clip below needs a path)
+				maxI = 0
+				context.Rectangle(bbx, bby, 0, 0)
+			}
 			for i_ := 0; i_ < maxI; i_ += 2 {
 				i := fl(i_)
 				switch side {
